@@ -7,6 +7,7 @@ import Acpi.Tables.Wf
 import Acpi.Spec.Layout
 import Acpi.Lemmas.Layout
 import Acpi.Lemmas.LayoutSratHmatPptt
+import Acpi.Lemmas.ProcFlags
 namespace Acpi.C04
 open Acpi Spec SHP
 
@@ -262,20 +263,23 @@ theorem conforms_msc (c : EArgs) (opts : List Opt) (a : EArgs)
     rw [encFields_append, encFields_map_num]
     simp [encFields, render, Row.bytes, Fld.bytes, res, leN_zero, num_mk, msc_attr _ _ _ _ _ h2 h3 h4 h5 h6]
 
-/-! ### proc (PPTT processor hierarchy node): five flag options, pushes cache -/
+/-! ### proc (PPTT processor hierarchy node): five flag options, pushes cache, and direct writes
+    of the three public fields (`set=slot.value`; slot 0 flags, 1 parent, 2 ACPI processor id) -/
 
 theorem applyOpt_proc (a : EArgs) (o : Opt) :
     applyOpt .proc a o =
       if o.name = "physical" then some (a.orNum 0 1) else if o.name = "valid" then some (a.orNum 0 2)
       else if o.name = "thread" then some (a.orNum 0 4) else if o.name = "leaf" then some (a.orNum 0 8)
       else if o.name = "identical" then some (a.orNum 0 16)
-      else if o.name = "cache" then some { a with s := [a.s.getD 0 [] ++ [o.arg 0]] } else none := by
+      else if o.name = "cache" then some { a with s := [a.s.getD 0 [] ++ [o.arg 0]] }
+      else if o.name = "set" then some (a.setNum (o.arg 0) (o.arg 1)) else none := by
   unfold applyOpt
   split <;> simp_all
 
+/-- the builder state after any program (direct writes included; no well-formedness needed: a
+    write to a slot the node does not have is a no-op in the model and invisible to the spec) -/
 theorem final_proc (c : EArgs) : ∀ opts a, applyOpts .proc (init .proc c) opts = .ok a →
-    a = { n := #[bit opts "physical" 1 ||| bit opts "valid" 2 ||| bit opts "thread" 4 ||| bit opts "leaf" 8 |||
-                   bit opts "identical" 16, c.num 0, c.num 1],
+    a = { n := #[procFlags opts, lastSet opts 1 (c.num 0), lastSet opts 2 (c.num 1)],
           s := [pushed opts "cache"] } := by
   intro opts
   induction opts using snoc_induction with
@@ -291,16 +295,16 @@ theorem final_proc (c : EArgs) : ∀ opts a, applyOpts .proc (init .proc c) opts
     have := ih a' h1
     subst this
     rw [applyOpt_proc] at h2
-    simp only [pushed_snoc, bit_snoc]
+    simp only [pushed_snoc, ProcF.procFlags_snoc, ProcF.lastSet_snoc]
     repeat' split at h2
     all_goals first | (simp at h2; done) | skip
     all_goals simp only [Option.some.injEq] at h2; subst h2
-    all_goals simp [*, EArgs.orNum, EArgs.setNum, EArgs.num]
-    · rcases bit_cases os "physical" 1 with e | e <;> rw [e] <;> or_ac
-    · rcases bit_cases os "valid" 2 with e | e <;> rw [e] <;> or_ac
-    · rcases bit_cases os "thread" 4 with e | e <;> rw [e] <;> or_ac
-    · rcases bit_cases os "leaf" 8 with e | e <;> rw [e] <;> or_ac
-    · rcases bit_cases os "identical" 16 with e | e <;> rw [e] <;> or_ac
+    all_goals rename_i hlast
+    -- the five flag builders and `add_cache`
+    iterate 6 simp [*, EArgs.orNum, EArgs.setNum, EArgs.num]
+    -- a direct write
+    · rw [ProcF.setNum3]
+      simp [hlast]
 
 theorem bits_proc (os : List Opt) :
     bit os "physical" 1 ||| bit os "valid" 2 ||| bit os "thread" 4 ||| bit os "leaf" 8 ||| bit os "identical" 16 =
@@ -308,6 +312,16 @@ theorem bits_proc (os : List Opt) :
   unfold bit
   cases has os "physical" <;> cases has os "valid" <;> cases has os "thread" <;> cases has os "leaf" <;>
     cases has os "identical" <;> rfl
+
+/-- the builder state of a program without a direct write of the flags field, in the form
+    `final_proc` had before direct writes were modelled: the flags slot is the union of the bits of
+    the flag builders invoked -/
+theorem final_proc_noFlagsWrite (c : EArgs) (opts : List Opt) (a : EArgs)
+    (h : applyOpts .proc (init .proc c) opts = .ok a) (hnw : noFlagsWrite opts = true) :
+    a = { n := #[bit opts "physical" 1 ||| bit opts "valid" 2 ||| bit opts "thread" 4 ||| bit opts "leaf" 8 |||
+                   bit opts "identical" 16, lastSet opts 1 (c.num 0), lastSet opts 2 (c.num 1)],
+          s := [pushed opts "cache"] } := by
+  rw [final_proc c opts a h, ProcF.procFlags_of_noFlagsWrite opts hnw, bits_proc]
 
 theorem conforms_proc (c : EArgs) (opts : List Opt) (a : EArgs)
     (hwf : entryWf .proc c opts = true) (h : buildEntry .proc c opts = .ok a) :
@@ -326,7 +340,7 @@ theorem conforms_proc (c : EArgs) (opts : List Opt) (a : EArgs)
     unfold entryBytes fields
     simp only []
     rw [encFields_append, encFields_map_num]
-    simp [encFields, render, Row.bytes, Fld.bytes, res, leN_zero, num_mk, bits_proc]
+    simp [encFields, render, Row.bytes, Fld.bytes, res, leN_zero, num_mk]
 
 /-! ### cache (PPTT cache type structure): valued options and or-accumulated attributes -/
 
